@@ -77,6 +77,10 @@ def units(tier, seed):
         us.append({"kind": "vector", "names": names_all[:4], "kinds": ["unit", "unit", "unit", "unit"], "flags": [True, True, False], "small": True})
     for cls in TRANSFORMS:
         us.append({"kind": "transform", "cls": cls, "depth": 3 if tier == "quick" else 4, "seed": seed})
+    # wide vectors (size ladder): scripted histories, every step compared with the reference transition function
+    for n in ([5, 16, 17, 64, 65, 257] if tier == "quick" else [5, 16, 17, 64, 65, 257, 1025]):
+        for fl in ([True, True, True], [True, True, False]):
+            us.append({"kind": "wide", "n": n, "flags": fl})
     return us
 
 
@@ -584,7 +588,87 @@ def check_transform_seq(ctx, cls, pset, seq):
                       "a new %s() built after the calls differs from one built before: %s vs %s" % (cls, after, fresh_default))
 
 
+def wide_unit_cfg(unit):
+    n = unit["n"]
+    names = ["p%d" % i for i in range(n)]
+    kinds = [KINDS[i % 4] for i in range(n)]
+    return {"kind": "vector", "names": names, "kinds": kinds, "flags": unit["flags"]}
+
+
+def wide_history(u):
+    """a scripted history that touches every element by attribute and by key with every letter of its kind,
+    interleaved with whole-vector assignments, reset, clone and dict copies"""
+    n = len(u["names"])
+    hist = []
+    for i, k in enumerate(u["kinds"]):
+        vals = BOUND_KINDS[k][3] + [NAN]
+        hist.append(("attr" if i % 2 else "key", i, vals[i % len(vals)]))
+        if i % 16 == 5:
+            hist.append(("clone",))
+        if i % 16 == 11:
+            hist.append(("dict",))
+        if i % 32 == 7:
+            hist.append(("all", [BOUND_KINDS[kk][2] if j % 3 else BOUND_KINDS[kk][3][0] for j, kk in enumerate(u["kinds"])]))
+        if i % 32 == 23:
+            hist.append(("reset",))
+    hist += [("all", [BOUND_KINDS[kk][2] for kk in u["kinds"]] + [0.5]), ("badkey", 1.0), ("clone",), ("dict",), ("reset",)]
+    return hist
+
+
+def run_wide_unit(unit, ctx):
+    u = wide_unit_cfg(unit)
+    v = make_vector(u)
+    obs0 = observe(v)
+    cfg = {"mins": [BOUND_KINDS[k][0] for k in u["kinds"]], "maxs": [BOUND_KINDS[k][1] for k in u["kinds"]],
+           "defaults": [BOUND_KINDS[k][2] for k in u["kinds"]], "flags": u["flags"], "obs0": obs0}
+    ctx.case(False, n=0, sample={"kind": "wide", "n": unit["n"], "flags": unit["flags"], "step": 0})
+    prev = obs0
+    hist = wide_history(u)
+    for si, op in enumerate(hist):
+        case = {"kind": "wide", "n": unit["n"], "flags": unit["flags"], "step": si}
+        exp = model_step(prev, op, cfg)
+        if op[0] in ("clone", "dict"):
+            # the copy continues (the independence test of apply_op would disturb the scripted history)
+            res, exc, extra = ("copy", op[0]), None, []
+            try:
+                v = v.clone() if op[0] == "clone" else type(v).from_dict(v.to_dict())
+            except Exception as e:
+                exc = e
+        else:
+            res, exc, extra = apply_op(v, op)
+        for k, msg in extra:
+            ctx.violation("vector:wide:" + k, case, msg)
+        obs = observe(v)
+        ctx.case(True, outcome=hash((si, obs["values"][:4], obs["hitbounds"])))
+        ctx.transitions += 1
+        for f in ("mins", "maxs", "defaults", "names", "check_bounds", "check_hitbounds", "accept_nan", "nval"):
+            if obs[f] != obs0[f]:
+                ctx.violation("vector:wide:%s:construction-data-changed:%s" % (op[0], f), case, "%s changed at step %d (%s) of the scripted history on %d names" % (f, si, op_json(op)[:2], unit["n"]))
+        if any(obs["alias"]):
+            ctx.violation("vector:wide:%s:values-alias-construction-data" % op[0], case, "values share memory with construction data after step %d" % si)
+        if exp is None:
+            if exc is None and not isinstance(res, tuple):
+                ctx.violation("vector:wide:%s:bad-assignment-accepted" % op[0], case, "step %d should be rejected" % si)
+            if obs != prev:
+                ctx.violation("vector:wide:%s:rejected-assignment-changed-state" % op[0], case, "rejected step %d changed the state" % si)
+        else:
+            ev, eh = exp
+            evt = tuple(nanfix(float(x)) for x in ev)
+            if exc is not None:
+                ctx.violation("vector:wide:%s:raised" % op[0], case, "valid step %d raised %r" % (si, exc))
+            elif obs["values"] != evt or obs["hitbounds"] != bool(eh):
+                bad = [i for i, (a, b) in enumerate(zip(obs["values"], evt)) if a != b][:5]
+                ctx.violation("vector:wide:%s:%s" % (op[0], "values" if obs["values"] != evt else "hitbounds"), case,
+                              "after step %d (%s) on %d names: elements %s differ / hitbounds %s expected %s" % (si, op_json(op)[:2], unit["n"], bad, obs["hitbounds"], bool(eh)))
+        prev = obs
+    ctx.states += len(hist)
+    ctx.traces += 1
+
+
 def run_unit(unit, ctx):
+    if unit["kind"] == "wide":
+        run_wide_unit(unit, ctx)
+        return
     if unit["kind"] == "vector":
         run_vector_unit(unit, ctx)
     else:
@@ -595,6 +679,9 @@ def run_unit(unit, ctx):
 def replay(case):
     from mc.explore import Result
     ctx = Result()
+    if case["kind"] == "wide":
+        run_wide_unit({"kind": "wide", "n": case["n"], "flags": case["flags"]}, ctx)
+        return [v for lst in ctx.violations.values() for v in lst]
     if case["kind"] == "vector-diff":
         unit = dict(case["unit"]); unit["kind"] = "vector"
         op = op_from_json(case["op"])
